@@ -106,7 +106,7 @@ def parseTable (s : String) : Option TableSchema :=
     | ')' :: body =>
       if !ident name then none
       else match allSome ((String.ofList body.reverse).splitOn "," |>.map parseCol) with
-        | some cols => if cols.isEmpty then none else some ⟨name, cols⟩
+        | some cols => if cols.isEmpty then none else some ⟨name, cols, []⟩
         | none => none
     | _ => none
   | _ => none
@@ -152,7 +152,7 @@ def parseCfg (ps cache pool mk sib : String) : Option Config :=
   match parseNatC ps.toList 65536, parseNatC cache.toList 60000, parseNatC pool.toList 16, parseNatC mk.toList 8,
         parseNatC sib.toList 4 with
   | some a, some b, some c, some d, some e =>
-    if pageSizeOk a && b ≥ 16 && c ≥ 1 && d ≥ 2 && e ≥ 1 then some ⟨a, b, c, d, e⟩ else none
+    if pageSizeOk a && b ≥ 16 && c ≥ 1 && d ≥ 3 && e ≥ 1 then some ⟨a, b, c, d, e⟩ else none
   | _, _, _, _, _ => none
 
 def parseOp (ws : List String) : Option WOp :=
@@ -240,7 +240,7 @@ def showS : SOut → String
 def showDb : Out → String
   | .ok => "ok"
   | .stmt o => showS o
-  | .conflict => "conflict"
+  | .refused e => showErr e
   | .noSession => "nosession"
   | .batchErr e => "batch-" ++ showErr e
   | .batch outs => "batch(" ++ joinWith " " (outs.map showS) ++ ")"
@@ -258,7 +258,7 @@ def showW : WOut → String
   | .ok => "ok"
   | .tid n => s!"tid{n}"
   | .obs rows => showObs rows
-  | .reopened h => s!"hdr={h.pageSize},{h.minKeys},{h.siblings}"
+  | .reopened e => s!"hdr={e.pageSize},{e.minKeys},{e.siblings}"
   | .panic => "panic"
 
 structure Flags where
@@ -270,7 +270,10 @@ def parseFlags (flags : List String) : Flags :=
   { D := { updateKeepsInserterXmin := flags.contains "updateKeepsInserterXmin",
            writeSetNeverRecorded := flags.contains "writeSetNeverRecorded",
            deleteMarkSingleSlot := flags.contains "deleteMarkSingleSlot",
-           stmtNotAtomicInSession := flags.contains "stmtNotAtomicInSession" },
+           stmtNotAtomicInSession := flags.contains "stmtNotAtomicInSession",
+           indexNotMaintainedOnKeyUpdate := flags.contains "indexNotMaintainedOnKeyUpdate",
+           indexOneEntryPerKey := flags.contains "indexOneEntryPerKey",
+           uniqueNotRecheckedAtCommit := flags.contains "uniqueNotRecheckedAtCommit" },
     R := { abortedBitmap8192 := flags.contains "abortedBitmap8192",
            openTxnAtCloseSurvives := flags.contains "openTxnAtCloseSurvives",
            versionCounterU8 := flags.contains "versionCounterU8" },
@@ -278,7 +281,8 @@ def parseFlags (flags : List String) : Flags :=
 
 def defectNames : List String :=
   ["abortedBitmap8192", "openTxnAtCloseSurvives", "versionCounterU8", "updateKeepsInserterXmin", "writeSetNeverRecorded",
-   "deleteMarkSingleSlot", "stmtNotAtomicInSession"]
+   "deleteMarkSingleSlot", "stmtNotAtomicInSession", "indexNotMaintainedOnKeyUpdate", "indexOneEntryPerKey",
+   "uniqueNotRecheckedAtCommit"]
 
 /-- the observation the engine makes after every open and at the end: every table that should exist, every name that
     should not; `live` / `dead` are kept as the engine keeps them (from the outcomes of the DDL operations) -/
